@@ -166,15 +166,17 @@ def Hub.batchTimeoutHeight (h : Hub) (chain : String) : Nat :=
     let projectedMillis := (h.height - c.obsCosmosHeight) * p.avgBlock
     (projectedMillis / avg) + c.obsExtHeight + p.targetTimeout / avg
 
-/-- Entries selected by `iterateUnbatchedSendToExternalsByCoin`: every pool entry whose key has
-    the token-id bytes as a *byte prefix*, highest key first, at most `maxN`. -/
+/-- Entries selected by `iterateUnbatchedSendToExternalsByCoin`: the pool entries whose key has
+    the token-id bytes as a byte prefix *and* whose token id is the requested one, highest key
+    first, at most `maxN`. -/
 def selectForBatch (pool : List Ste) (extToken : String) (maxN : Nat) : List Ste :=
-  ((pool.filter fun s => isPrefix (strBytes extToken) (poolKey s)).reverse).take maxN
+  ((pool.filter fun s => isPrefix (strBytes extToken) (poolKey s) && s.extToken == extToken).reverse).take maxN
 
-/-- `BuildBatchTx`. -/
-def Hub.buildBatch (h : Hub) (chain extToken : String) (maxN : Nat) : Hub × Batch :=
+/-- `BuildBatchTx`: nothing is stored when nothing was selected. -/
+def Hub.buildBatch (h : Hub) (chain extToken : String) (maxN : Nat) : Hub × Option Batch :=
   let c := h.chain chain
   let sel := selectForBatch c.pool extToken maxN
+  if sel.isEmpty then (h, none) else
   let pool' := sel.foldl (fun p s => eraseByKey poolKey (poolKey s) p) c.pool
   let h := sel.foldl (fun h s => h.setStatus s.txHash stBatchCreated "") h
   let nonce := c.lastBatchNonce + 1
@@ -183,10 +185,10 @@ def Hub.buildBatch (h : Hub) (chain extToken : String) (maxN : Nat) : Hub × Bat
                      seq := seq, extToken := extToken, txs := sel }
   let c := { c with pool := pool', lastBatchNonce := nonce, outSeq := seq,
                     batches := insertByKey batchKey b c.batches }
-  (h.setChain chain c, b)
+  (h.setChain chain c, some b)
 
 /-- `MsgRequestBatchTx`. -/
-def Hub.requestBatch (h : Hub) (chain denom : String) : M (Hub × Batch) :=
+def Hub.requestBatch (h : Hub) (chain denom : String) : M (Hub × Option Batch) :=
   if !h.hasChain chain then failM "invalid chain id"
   else match h.tokenByDenom chain denom with
     | none => failM "token not found"
@@ -258,6 +260,7 @@ def Hub.batchExecuted (h : Hub) (chain extToken : String) (nonce : Nat) (txHash 
       valset.foldlM (fun (h : Hub) v => do
         if totalPower == 0 then panicM "division by zero"
         let amount := Int.tdiv (totalComm * v.power) totalPower
+        if amount ≤ 0 then return h
         match h.createSte "minter" tempAddr v.addr tok.denom amount 0 0 "#commission" "" "" with
         | .ok (h, _) => pure h
         | .error (.fail m) => panicM m
@@ -300,6 +303,7 @@ def Hub.batchExecuted (h : Hub) (chain extToken : String) (nonce : Nat) (txHash 
       | .error e => .error e : M Hub)
     match alGet h.feeRec t.txHash with
     | none => panicM "nil fee record"
-    | some (vc, ef) => return { h with feeRec := alSet h.feeRec t.txHash (vc, ef - toRefund) }) h
+    | some (vc, ef) =>
+      return { h with feeRec := alSet h.feeRec t.txHash (vc, ef - h.toExternal chain tok.extId toRefund) }) h
 
 end Mhub2
